@@ -1343,16 +1343,36 @@ where
     }
 
     fn visit_mut_expr(&mut self, expr: &mut Expr) {
+        // `x = <C>{x}</C>`: the assigned variable is only relevant while lowering the element
+        // that is the right side of this very assignment
+        let assignment_left = match expr {
+            Expr::Assign(AssignExpr {
+                left: AssignTarget::Simple(SimpleAssignTarget::Ident(binding_ident)),
+                right,
+                ..
+            }) if right.is_jsx_element() => Some(binding_ident.id.clone()),
+            _ => None,
+        };
+        let is_jsx_element = expr.is_jsx_element();
+        let outer_assignment_left = if is_jsx_element {
+            // keep what the enclosing assignment (if any) has set
+            self.assignment_left.clone()
+        } else {
+            mem::replace(&mut self.assignment_left, assignment_left)
+        };
+
         expr.visit_mut_children_with(self);
 
         match expr {
             Expr::JSXElement(jsx_element) => *expr = self.transform_jsx_element(jsx_element),
             Expr::JSXFragment(jsx_fragment) => *expr = self.transform_jsx_fragment(jsx_fragment),
-            Expr::Assign(AssignExpr {
-                left: AssignTarget::Simple(SimpleAssignTarget::Ident(binding_ident)),
-                ..
-            }) => self.assignment_left = Some(binding_ident.id.clone()),
             _ => {}
+        }
+
+        if is_jsx_element {
+            self.assignment_left = None;
+        } else {
+            self.assignment_left = outer_assignment_left;
         }
     }
 
